@@ -2,6 +2,7 @@ package rules
 
 import (
 	"go/token"
+	"go/types"
 	"strings"
 
 	. "abverif/internal/engine"
@@ -316,8 +317,63 @@ func (c *Ctx) tokenCodec() {
 	r := c.R
 	gen := c.P.Func("(*ab.Sha512TokenGenerator).GenerateToken")
 	par := c.P.Func("(*ab.Sha512TokenGenerator).ParseToken")
-	size := c.P.ConstInt("", "tokenSize")
-	split := c.P.ConstInt("", "tokenSplit")
+	// the token's size and where it is split: unexported constants, read where
+	// they are used (the buffer the generator draws into; the bound of the first
+	// half it hashes), so that renaming them changes nothing
+	size, split := int64(0), int64(0)
+	for _, call := range Calls(gen) {
+		var buf ssa.Value
+		switch Callee(call) {
+		case "io.ReadFull", "io.ReadAtLeast":
+			buf = Arg(call, 1)
+		case "crypto/rand.Read":
+			buf = Arg(call, 0)
+		}
+		for d := 0; buf != nil && d < 8; d++ {
+			switch x := buf.(type) {
+			case *ssa.Slice:
+				buf = x.X
+				continue
+			case *ssa.Phi:
+				var one ssa.Value
+				for _, e := range x.Edges {
+					if !IsNilConst(e) {
+						one = e
+					}
+				}
+				buf = one
+				continue
+			case *ssa.MakeSlice:
+				size, _ = ConstInt(x.Len)
+			case *ssa.Alloc:
+				if at, ok := x.Type().Underlying().(*types.Pointer).Elem().Underlying().(*types.Array); ok {
+					size = at.Len()
+				}
+			}
+			break
+		}
+	}
+	for _, call := range CallsTo(gen, fnSum512) {
+		var find func(v ssa.Value, d int)
+		find = func(v ssa.Value, d int) {
+			if d > 6 {
+				return
+			}
+			switch x := v.(type) {
+			case *ssa.Slice:
+				if x.Low == nil && x.High != nil {
+					if k, ok := ConstInt(x.High); ok {
+						split = k
+					}
+				}
+			case *ssa.Convert:
+				find(x.X, d+1)
+			case *ssa.ChangeType:
+				find(x.X, d+1)
+			}
+		}
+		find(Arg(call, 0), 0)
+	}
 	r.Check(split*2 == size && size > 0, "C05.codec", "ab.tokenSplit", "tokenSplit*2==tokenSize", "-", sprintf("tokenSize=%d tokenSplit=%d", size, split), sprintf("token halves are not equal: tokenSize=%d tokenSplit=%d", size, split))
 	// slices feeding Sum512 in both functions: [:split] and [split:]
 	shape := func(fn *ssa.Function) (lowHalf, highHalf bool, n int) {
@@ -362,6 +418,86 @@ func (c *Ctx) tokenCodec() {
 	for _, fn := range []*ssa.Function{gen, par} {
 		lo, hi, n := shape(fn)
 		r.Check(lo && hi && n == 2, "C05.codec", FuncName(fn), "halves", c.P.Pos(fn.Pos()), "hashes raw[:tokenSplit] and raw[tokenSplit:] with sha512.Sum512", sprintf("does not hash exactly the two halves split at tokenSplit (sum512 calls: %d, first half: %v, second half: %v)", n, lo, hi))
+	}
+	// the bytes hashed (and handed out) are the bytes this call drew: the buffer
+	// whose halves are hashed is the one the entropy read of this very call
+	// filled — not a copy of some longer-lived pool, whose windows may overlap
+	// from one token to the next
+	var bufRoot func(v ssa.Value) ssa.Value
+	bufRoot = func(v ssa.Value) ssa.Value {
+		for d := 0; d < 8; d++ {
+			switch x := v.(type) {
+			case *ssa.Slice:
+				v = x.X
+				continue
+			case *ssa.Convert:
+				v = x.X
+				continue
+			case *ssa.ChangeType:
+				v = x.X
+				continue
+			case *ssa.Phi:
+				// what a `(buf, err)` helper leaves once inlined: nil on its error
+				// returns, the buffer otherwise
+				var one ssa.Value
+				for _, e := range x.Edges {
+					if IsNilConst(e) {
+						continue
+					}
+					r := bufRoot(e)
+					if one != nil && one != r {
+						return v
+					}
+					one = r
+				}
+				if one != nil {
+					return one
+				}
+			}
+			break
+		}
+		return v
+	}
+	var drawn ssa.Value
+	for _, call := range Calls(gen) {
+		switch Callee(call) {
+		case "io.ReadFull", "io.ReadAtLeast":
+			drawn = bufRoot(Arg(call, 1))
+		case "crypto/rand.Read":
+			drawn = bufRoot(Arg(call, 0))
+		}
+	}
+	if drawn == nil {
+		r.Unknown("C05.fresh-bytes", FuncName(gen), "entropy read", "-", "no read of the entropy source found in the generator")
+	} else {
+		_, isMk := drawn.(*ssa.MakeSlice)
+		_, isAl := drawn.(*ssa.Alloc)
+		r.Check(isMk || isAl, "C05.fresh-bytes", FuncName(gen), "buffer drawn into", c.P.Pos(gen.Pos()), "the entropy is read into a buffer allocated by this call", "the entropy is read into storage that outlives the call ("+SafeString(drawn)+"): the bytes of one token can be handed out again as part of another")
+		for i, call := range CallsTo(gen, fnSum512) {
+			var src ssa.Value
+			var find func(v ssa.Value, d int)
+			find = func(v ssa.Value, d int) {
+				if d > 6 || src != nil {
+					return
+				}
+				switch x := v.(type) {
+				case *ssa.Slice:
+					src = bufRoot(x)
+				case *ssa.Convert:
+					find(x.X, d+1)
+				case *ssa.ChangeType:
+					find(x.X, d+1)
+				}
+			}
+			find(Arg(call, 0), 0)
+			r.Check(src == drawn, "C05.fresh-bytes", FuncName(gen), sprintf("Sum512#%d input", i), posf(c, call), "hashes the buffer the entropy read filled", "the half hashed is not taken from the buffer this call's entropy read filled: selector and verifier of different tokens can share bytes (a token spliced from two others is accepted)")
+		}
+		// nothing else writes the buffer
+		for _, call := range Calls(gen) {
+			if bi, isB := call.Common().Value.(*ssa.Builtin); isB && bi.Name() == "copy" && bufRoot(Arg(call, 0)) == drawn {
+				r.Bad("C05.fresh-bytes", FuncName(gen), "copy into token buffer", posf(c, call), "the drawn bytes are overwritten before they are hashed")
+			}
+		}
 	}
 	// generator's encoders: results 0,1 StdEncoding, result 2 URLEncoding over the raw token
 	for _, b := range gen.Blocks {
